@@ -260,6 +260,15 @@ class Evaluator:
                 return self.env[n.id]
             if n.id in TYPE_VALUES:
                 return TYPE_VALUES[n.id]         # a builtin type used as a value (converter argument, isinstance operand)
+            scope = getattr(self, 'class_scope', None)
+            if scope is not None and hasattr(scope, 'resolve_var'):
+                # the expression is the body of a class level constant: earlier names of the class body (MESSAGE_SIZE = 2 * _FIELD_SIZE)
+                var = scope.resolve_var(n.id)
+                node = getattr(var, 'node', None)
+                if isinstance(node, ast.AST) and not isinstance(node, (ast.FunctionDef, ast.Lambda)) and node is not getattr(self, 'class_scope_node', None):
+                    sub = Evaluator({}, self.hook, self.name_hook)
+                    sub.owner, sub.class_scope, sub.class_scope_node = self.owner, scope, node
+                    return sub.ev(node)
             if self.name_hook is not None:
                 try:
                     return self.name_hook(n.id)
@@ -396,6 +405,7 @@ class Evaluator:
                     return memo[key]
                 sub = Evaluator({}, self.hook, self.name_hook)
                 sub.owner = self.owner
+                sub.class_scope, sub.class_scope_node = getattr(var, 'cls', None) or self.owner, node
                 try:
                     val = sub.ev(node)
                     if memo is not None and isinstance(val, (list, dict, set)):
@@ -770,6 +780,12 @@ class EnumVal(Native):
             self.value = Obj(**{k: v for k, v in fields.items() if isinstance(k, str) and not k.startswith('__')})
         elif isinstance(row, (int, str, bytes, bool, type(None))):
             self.value = row
+        elif isinstance(row, ast.AST):
+            # a member of an enum class of the repository: its value expression, when it is a literal
+            try:
+                self.value = ast.literal_eval(row)
+            except (ValueError, SyntaxError, TypeError):
+                self.value = Obj(unknown=True)
         else:
             self.value = Obj(unknown=True)
 
@@ -806,10 +822,27 @@ def class_call_hook(cls, extra=None, model=None):
         if params and params[0] in ('self', 'cls'):
             first = params[0]
             params = params[1:]
-        args = [ev.ev(a) for a in n.args]
+        args = []
+        for a in n.args:
+            if isinstance(a, ast.Starred):
+                args.extend(ev.ev(a.value))
+            else:
+                args.append(ev.ev(a))
         env = dict(zip(params, args))
+        extra_kw = {}
         for k in n.keywords:
-            env[k.arg] = ev.ev(k.value)
+            if k.arg is None:
+                # f(**mapping)
+                for kk, vv in dict(ev.ev(k.value)).items():
+                    (env if kk in params else extra_kw)[kk] = vv
+            elif k.arg in params or m.node.args.kwarg is None:
+                env[k.arg] = ev.ev(k.value)
+            else:
+                extra_kw[k.arg] = ev.ev(k.value)
+        if m.node.args.vararg is not None:
+            env[m.node.args.vararg.arg] = tuple(args[len(params):])
+        if m.node.args.kwarg is not None:
+            env[m.node.args.kwarg.arg] = extra_kw
         defaults = m.node.args.defaults
         for p, d in zip(params[len(params) - len(defaults):], defaults):
             if p not in env:
@@ -861,7 +894,9 @@ def class_call_hook(cls, extra=None, model=None):
                     if key in class_values:
                         return class_values[key]
                     try:
-                        val = Evaluator({}, make(holder, holder.module), name_hook_for(holder.module, outer)).ev(node)
+                        cev = Evaluator({}, make(holder, holder.module), name_hook_for(holder.module, outer))
+                        cev.class_scope, cev.class_scope_node = getattr(v, 'cls', None) or holder, node
+                        val = cev.ev(node)
                         if isinstance(val, (list, dict, set)):
                             class_values[key] = val
                         return val
